@@ -19,25 +19,32 @@ CHECK = {
     "design_ref": "DESIGN.md section 3 C20",
     "targets": [
         {"name": "TestC20BPELlama",
-         "quick": {"cases": 12000, "shards": 2, "soft_s": 30},
+         "quick": {"cases": 12000, "shards": 2, "soft_s": 40},
          "thorough": {"cases": 600000, "shards": 6, "soft_s": 330}},
         {"name": "TestC20BPESynth",
-         "quick": {"cases": 6000, "shards": 2, "soft_s": 30},
+         "quick": {"cases": 5000, "shards": 2, "soft_s": 40},
          "thorough": {"cases": 250000, "shards": 5, "soft_s": 330}},
         {"name": "TestC20SPM",
-         "quick": {"cases": 10000, "shards": 2, "soft_s": 30},
+         "quick": {"cases": 10000, "shards": 2, "soft_s": 40},
          "thorough": {"cases": 500000, "shards": 5, "soft_s": 330}},
     ],
     "floors": {"multibyte": 0.4, "whitespace_run": 0.15, "special_literal": 0.2, "ascii_punct": 0.3,
                "contraction": 0.05, "crlf": 0.03, "combining_mark": 0.05, "emoji_zwj": 0.02, "cjk": 0.05,
                "arabic_hebrew": 0.04, "digit_run_4plus": 0.04, "remapped_byte": 0.2, "merged_token": 0.4,
-               "byte_fallback": 0.04, "per_case_merges": 0.15},
+               "byte_fallback": 0.04, "per_case_merges": 0.15,
+               # long-text class: one case in 512 (quick) / 2048 (thorough); floors are a third of the thorough rate
+               "long_text_60k_plus": 0.00015, "long_fragment_over_64k": 0.00007, "char_straddles_64k_multiple": 0.00004},
     "rule": "rapid-generated text = concatenation of 0-40 chunks drawn from: Latin words, contractions ('s 'LL), ASCII and "
             "non-ASCII digit runs, whitespace runs (space, tab, CR, LF, CRLF, NBSP, U+2003, U+3000, ZWSP, U+2028), 1-5 random "
             "ASCII printables, punctuation runs, CJK, Arabic/Hebrew/Cyrillic/Greek/Devanagari/Thai, combining sequences, emoji "
             "(ZWJ, flags, skin tones, keycaps), the vocabulary's special-token literals and damaged copies of them, byte-token "
             "look-alikes, random runes of every Unicode category, random scalar values, C0/C1 controls, soft hyphen, long "
-            "repeats and the full ASCII printable string; valid UTF-8 without NUL (SentencePiece: also without U+2581). Targets: "
+            "repeats and the full ASCII printable string; valid UTF-8 without NUL (SentencePiece: also without U+2581). Long-text "
+            "class (all three targets; one case in 512 in the quick tier, one in 2048 in the thorough tier, about 100 resp. 3000 "
+            "cases per run): an ASCII prefix of 0-7 bytes followed by 60-260 KiB of repetitions of a drawn unit of 1-6 chunks "
+            "of 1-, 2-, 3- and 4-byte characters and whitespace, followed by the ordinary chunks (which bring special literals); "
+            "the case stores prefix, unit and repeat count, not the expansion; same oracle. Classes long_fragment_over_64k and "
+            "char_straddles_{4k,64k}_multiple count texts in which a multi-byte character lies across a multiple of 4 KiB / 64 KiB. Targets: "
             "BPE with llama 3.2 vocabulary+merges and the llama 3 pre-tokenizer; BPE with per-case vocabulary (256 byte symbols, "
             "merges learnt from a fixed corpus and from the case text, optional reversed ranks / merges without token; llama 3 or "
             "mistral 3 pre-tokenizer); SentencePiece with per-case vocabulary (256 byte tokens, control/unused/user-defined "
@@ -45,6 +52,7 @@ CHECK = {
             "Non-trivial = the text contains a multi-byte character, a special-token literal or two consecutive whitespace "
             "characters; distinct = distinct hash of the generated case.",
     "assumptions": [
+        "long texts: the repeated unit never contains a special-token literal, because both encoders splice their fragment list once per occurrence (quadratic: minutes for 50 000 occurrences) - a cost, not part of the property; special literals follow the long fragment. Per-case vocabularies of long cases are learnt from the first four repetitions only. Texts above 260 KiB are not generated",
         "the pre-tokenizer patterns are the defaults that models/llama (= models/mllama) and models/mistral3 pass, read from their source in the tree under test (package model cannot import them); fallback = harness copy of the pinned commit; see coverage.pretokenizer_pattern_source",
         "a replay with expect=known:<slug> is reported instead of failed while <slug> is only assumed through VERIF_ASSUME_KNOWN (development aid); listed in known_findings.json it fails as the driver expects",
         "llama 3.2 special tokens are appended as CONTROL tokens 128000-128255 as in the released model (the test data holds only the 128000 ordinary tokens)",
